@@ -289,7 +289,7 @@ theorem numCtxSwitches_extract (c : Cfg) (hg : c.Good) (r : StatusRec) (hctx : r
     numCtxSwitches c (renderStatus r) = .ok (Spec.numCtxSwitches r) := by
   obtain ⟨hlen, hother⟩ := hctx
   unfold numCtxSwitches
-  rw [readStatus_good c hg, hg.ctxAnchored, hg.ctxKey]
+  rw [readStatus_good c hg, hg.ctxAnchored, hg.ctxKey, hg.ctxSep, findAllS_tabOne]
   have hshape : renderStatus r
       = renderLines ((keyName, escName r.comm) :: r.pre ++ [idLine keyUid r.uid, idLine keyGid r.gid]
           ++ r.mid1 ++ [(keyThreads, renderDec r.threads)] ++ r.mid2)
